@@ -114,7 +114,13 @@ def main(tier, seed):
     ck = Check("C05", tier, seed)
     tf = use_impl()
     rng = random.Random(seed)
-    b = ck.build_proofs("Prop_C05", extra_targets=["Run.vo", "Text.vo"])
+    # the serializer is regenerated from point.py and proved equal to the model's (proofs/CodecGenP.v)
+    refused = []
+
+    def regen():
+        rc, out = sh([PY, str(VERIF / "harness" / "py2coq_codec.py"), str(REPO / "tinyflux" / "point.py"), str(COQ / "gen" / "CodecGen.v")], timeout=60)
+        refused.extend(l for l in out.splitlines() if l.startswith("REFUSED"))
+    b = ck.build_proofs("Prop_C05", pre=regen, extra_targets=["Run.vo", "Text.vo"])
     n_codec = 1200 if tier == "quick" else 30000
     n_file = 40 if tier == "quick" else 600
     # (1) the csv layer: Csv.v against the standard library's writer and reader
@@ -206,8 +212,6 @@ def main(tier, seed):
             direct_bad.append({"kind": "failing-input", "why": "points written to a CSV database and read back after reopening differ", "csv_kwargs": {k: str(v) for k, v in kw.items()},
                                "points": pts, "read_back": got, "read_on_the_live_object_after_a_rewrite": got_live})
     # verdicts
-    if not b["ok"]:
-        ck.violation({"kind": "proof-broken", "what_no_longer_checks": f"Prop_C05.v {b['theorems']}", "log": b["log"][-1500:], "forbidden": b["forbidden"]}, no_input=True)
     for name, tail in failed:
         ck.violation({"kind": "model-evaluation-failed", "what_no_longer_checks": name, "log": tail}, no_input=True)
     if direct_bad:
@@ -220,6 +224,9 @@ def main(tier, seed):
         kind, kw, rows, text, parsed = cres["bad"][0]
         ck.violation({"kind": "correspondence-broken", "what_no_longer_checks": "correspondence Csv.v (theorems C05_csv_*) vs the standard library's csv writer/reader",
                       "dialect": {k: str(v) for k, v in kw.items()}, "rows": rows, "text": text, "stdlib_parses_to": parsed}, no_input=True)
+    if not b["ok"]:
+        ck.violation({"kind": "proof-broken", "what_no_longer_checks": f"Prop_C05.v {b['theorems']} (or the definitions regenerated from point.py)", "log": b["log"][-1500:],
+                      "forbidden": b["forbidden"], "translator_refused": refused}, no_input=True)
     for f in load_known_findings():
         if f.get("status") == "known" and "C05" in f.get("properties", []) and f.get("repro"):
             rc, out = sh([PY, str(VERIF / "findings" / "repro.py"), f["repro"]], env=impl_env(), timeout=120)
@@ -233,6 +240,8 @@ def main(tier, seed):
             "float repr / float(), datetime.isoformat / fromisoformat, the csv module: standard-library behaviour, modelled not verified",
             "Print Assumptions: " + json.dumps(b["assumptions"])],
         "theorems": b["theorems"], "forbidden_tokens_found": b["forbidden"],
+        "translator": {"source": "tinyflux/point.py: Point._serialize_to_list -> coq/gen/CodecGen.v (regenerated on this run, symbolic evaluation into a normal form)",
+                       "refused": refused, "equivalence_theorem": "gen_serialize_eq"},
         "evaluations": len(cases) + len(cres["cases"]) + file_runs,
         "distinct_nontrivial": len({json.dumps(r) for c, p, r, bk in cases if p["tags"] and p["fields"]}),
         "rule": "random points over an adversarial alphabet (delimiters, quotes, CR, LF, NUL, the reserved words, keys starting with t f _ and empty keys), "
